@@ -1,5 +1,6 @@
 import RepeVerif.Lemmas.Limits
 import RepeVerif.Gen.Limits
+import RepeVerif.Props.C03
 /-!
 # C17 — No outbound WebSocket message exceeds the assumed peer limit
 
@@ -271,5 +272,86 @@ theorem client_never_exceeds (L : Nat) (ops : List (Bool × Message)) (st : Clie
 
 example : ∃ (st : ClientSt) (m : Message), (5 : Nat) < m.toVec.length ∧ st.pending = [3] :=
   ⟨⟨[3], []⟩, ⟨Header.zero, [], []⟩, by decide, rfl⟩
+
+/-! ### composition with C03 (dispatch): the guard preserves "exactly one response per request" -/
+
+/-- What the peer can tell a frame is about: the id in the header it parses. -/
+def wireId (bs : Bytes) : Nat := (Header.parse bs).id
+
+/-- Any well-formed response with a clear notify byte comes out of `frame_outbound` as exactly one
+frame that the peer parses to the **same id** — the original frame or its replacement. -/
+theorem guard_keeps_id (hn : m.header.notify = 0) (wf : m.WF)
+    (hl : ∀ L, limit = some L → 48 + (text m.toVec.length L).length < 2^64) :
+    ∃ bs, (frameOutbound Gen.limitFacts limit text m cap rcap).wire = some bs ∧ wireId bs = m.header.id := by
+  cases limit with
+  | none =>
+    refine ⟨m.toVec, by rw [no_limit_unchanged], ?_⟩
+    unfold wireId Message.toVec; rw [List.append_assoc]; rw [parse_encode_append _ wf.inRange]
+  | some L =>
+    by_cases hle : 48 + m.query.length + m.body.length ≤ L
+    · refine ⟨m.toVec, by rw [at_or_below_unchanged text m cap rcap L hle], ?_⟩
+      unfold wireId Message.toVec; rw [List.append_assoc]; rw [parse_encode_append _ wf.inRange]
+    · obtain ⟨bs, r, hfr, _, _, hp, hid, _⟩ :=
+        oversize_response_replaced text m cap rcap L hn (by omega) wf.inRange.id (hl L rfl)
+      exact ⟨bs, by rw [hfr], by unfold wireId; rw [hp, hid]⟩
+
+/-- **C03 ∘ C17, one request.** Take C03's `respond` on a WebSocket transport (inline or off-reader):
+a notify request puts nothing on the wire; a non-notify request whose response is well-formed with a
+clear notify byte (true of every response C03's helpers build, see `C03.response_id`; for a handler's
+own message it is the handler contract) puts **exactly one** frame on the wire, and that frame carries
+the id of C03's response — whether or not the guard had to replace it. -/
+theorem guard_preserves_one_response (t : Transport) (req : Req) (utf8 found : Bool) (hview howned : HOut)
+    (rejMsg : Bytes)
+    (hok : ∀ r, (respond Gen.codes t req utf8 found hview howned rejMsg).1 = some r →
+      r.header.notify = 0 ∧ r.WF ∧ ∀ L, limit = some L → 48 + (text r.toVec.length L).length < 2^64) :
+    (req.isNotify = true → (respond Gen.codes t req utf8 found hview howned rejMsg).1 = none) ∧
+    (req.isNotify = false → ∃ r bs, (respond Gen.codes t req utf8 found hview howned rejMsg).1 = some r ∧
+      (frameOutbound Gen.limitFacts limit text r cap rcap).wire = some bs ∧ wireId bs = r.header.id) := by
+  refine ⟨C03.no_response_for_notify t req utf8 found hview howned rejMsg, ?_⟩
+  intro hn
+  obtain ⟨r, hr⟩ := C03.one_response t req utf8 found hview howned rejMsg hn
+  obtain ⟨h1, h2, h3⟩ := hok r hr
+  obtain ⟨bs, hb, hid⟩ := guard_keeps_id limit text r cap rcap h1 h2 h3
+  exact ⟨r, bs, hr, hb, hid⟩
+
+/-- For an error response built by the dispatch layer (rejection or handler error) the id on the wire
+is the **request's** id (uses `C03.response_id`). -/
+theorem guarded_error_response_has_request_id (t : Transport) (req : Req) (utf8 found : Bool)
+    (code : Nat) (msg rejMsg : Bytes) (hn : req.isNotify = false) (r : Message)
+    (hr : (respond Gen.codes t req utf8 found (.err code msg) (.err code msg) rejMsg).1 = some r)
+    (hnot : r.header.notify = 0) (wf : r.WF)
+    (hl : ∀ L, limit = some L → 48 + (text r.toVec.length L).length < 2^64) :
+    ∃ bs, (frameOutbound Gen.limitFacts limit text r cap rcap).wire = some bs ∧ wireId bs = req.header.id := by
+  obtain ⟨bs, hb, hid⟩ := guard_keeps_id limit text r cap rcap hnot wf hl
+  exact ⟨bs, hb, by rw [hid, C03.response_id t req utf8 found rejMsg hn code msg r hr]⟩
+
+/-- **C03 ∘ C17, a whole connection.** Feed the responses C03's connection loop produces for any
+sequence of requests (`serveSeq`, = `filterMap respond` by `C03.inline_order`) to the writer task: if every
+response has a clear notify byte and is well-formed, the writer emits exactly one frame per response, in
+the same order, the k-th frame carrying the k-th response's id. -/
+theorem connection_one_frame_per_response (t : Transport) (steps : List Step)
+    (hall : ∀ r ∈ (serveSeq Gen.codes t steps [] 0).1, r.header.notify = 0 ∧ r.WF ∧
+      ∀ L, limit = some L → 48 + (text r.toVec.length L).length < 2^64) :
+    let resps := steps.filterMap (fun s => (respond Gen.codes t s.req s.utf8 s.found s.hview s.howned).1)
+    (serveSeq Gen.codes t steps [] 0).1 = resps ∧
+    ((writerRun Gen.limitFacts limit text (resps.map (fun r => ⟨r, 0, 0⟩))).1.map wireId) =
+      resps.map (·.header.id) := by
+  have hio := C03.inline_order t steps
+  simp only
+  refine ⟨by rw [hio], ?_⟩
+  rw [hio] at hall
+  simp only at hall
+  generalize steps.filterMap (fun s => (respond Gen.codes t s.req s.utf8 s.found s.hview s.howned).1) = resps at hall
+  induction resps with
+  | nil => rfl
+  | cons r rest ih =>
+    obtain ⟨h1, h2, h3⟩ := hall r (List.mem_cons_self ..)
+    obtain ⟨bs, hb, hid⟩ := guard_keeps_id limit text r 0 0 h1 h2 h3
+    rw [List.map_cons, writer_continues, hb]
+    simp only [Option.toList, List.cons_append, List.nil_append, List.map_cons, hid]
+    rw [ih (fun x hx => hall x (List.mem_cons_of_mem _ hx))]
+
+example : (Builder.mk 7 false 0 1 2 [47, 97] [49]).build.WF ∧ (Builder.mk 7 false 0 1 2 [47, 97] [49]).build.header.notify = 0 :=
+  ⟨Builder.build_wf _ (by decide) (by decide) (by decide) (by decide) (by decide), rfl⟩
 
 end Repe.C17
